@@ -148,12 +148,24 @@ func (c *Ctx) numeralTheory() {
 		// elimination
 		"(forall ((bv!s Int) (bv!z Int) (bv!n Int)) (! (=> (= (uf_utext_3 bv!s bv!z bv!n) 1) (and (= (uf_isnum_1 bv!s) 1) (= (uf_numval_1 bv!s) bv!n))) :pattern ((uf_utext_3 bv!s bv!z bv!n))))",
 		"(forall ((bv!s Int) (bv!g Int) (bv!n Int)) (! (=> (= (uf_stext_3 bv!s bv!g bv!n) 1) (and (= (uf_isnum_1 bv!s) 1) (= (uf_numval_1 bv!s) (ite (= bv!g 45) (- bv!n) bv!n)))) :pattern ((uf_stext_3 bv!s bv!g bv!n))))",
-		// the characters of a decimal text are digits
-		"(forall ((bv!n Int) (bv!k Int)) (! (=> (and (>= bv!n 0) (<= 0 bv!k) (< bv!k (nd10 bv!n))) (and (<= 48 (uf_dchar_2 bv!n bv!k)) (<= (uf_dchar_2 bv!n bv!k) 57))) :pattern ((uf_dchar_2 bv!n bv!k))))",
 	}
 	for _, a := range ax {
 		c.assume(Term{a, SBool})
 	}
+	c.dcharAxiom()
+}
+
+// dcharAxiom: the characters of a decimal text are digits (assumed with the meaning of uf_dchar)
+func (c *Ctx) dcharAxiom() {
+	if c.declared["dchar-axiom"] {
+		return
+	}
+	c.declared["dchar-axiom"] = true
+	if !c.declared["uf_dchar_2"] {
+		c.declared["uf_dchar_2"] = true
+		c.decls = append(c.decls, "(declare-fun uf_dchar_2 (Int Int) Int)")
+	}
+	c.assume(Term{"(forall ((bv!n Int) (bv!k Int)) (! (=> (and (>= bv!n 0) (<= 0 bv!k) (< bv!k (nd10 bv!n))) (and (<= 48 (uf_dchar_2 bv!n bv!k)) (<= (uf_dchar_2 bv!n bv!k) 57))) :pattern ((uf_dchar_2 bv!n bv!k))))", SBool})
 }
 
 func (c *Ctx) freshArray(hint string, elem Sort) Term {
